@@ -9,7 +9,7 @@ raise and every in-range one must read / write exactly the entry `species*size +
 before / after).  Correspondence: the model's answer for the faulted component (op `validate`) against raise-or-not
 of the real code.
 """
-import copy, itertools
+import copy, itertools, os
 from fractions import Fraction
 from common import frac, rstr, rparse, close, CheckBroken
 
@@ -151,6 +151,32 @@ def materialize(x):
     return x
 
 
+_FILEDIR = [None]
+_FILECOUNT = [0]
+FILE_SEPS = [" ", ",", ", ", "\n", " \n", "\t", "\r\n"]
+FILE_ENDS = ["", "", "", "\n", "\r\n", " ", ","]          # nothing after the last number (as ','.join writes it), or a terminator
+
+
+def text_file(rng, script_files, values, end=None):
+    """a text array file holding `values` (recorded in script_files: path -> content; written by `build`)"""
+    import common
+    if _FILEDIR[0] is None:
+        _FILEDIR[0] = common.scratch_dir("verif_c20_files_")
+    _FILECOUNT[0] += 1
+    path = os.path.join(_FILEDIR[0], "array_%d.txt" % _FILECOUNT[0])
+    sep = rng.choice(FILE_SEPS)
+    content = sep.join(str(int(v)) for v in values) + (rng.choice(FILE_ENDS) if end is None else end)
+    script_files[path] = content
+    return path
+
+
+def write_files(script):
+    for path, content in (script.get("_files") or {}).items():
+        os.makedirs(os.path.dirname(path), exist_ok=True)
+        with open(path, "w", encoding="utf-8", newline="") as f:
+            f.write(content)
+
+
 def container(rng, d, key, kinds=("list", "list", "tuple", "ndarray")):
     """record in which container type the list stored under `key` is handed to the real code"""
     d.setdefault("_containers", {})[key] = rng.choice(kinds)
@@ -176,6 +202,7 @@ def maybe_units(rng, d, fn):
 # valid models
 # ---------------------------------------------------------------------------------------------
 def gen_model(rng, want_space=None):
+    files, expect = {}, {}
     ns = rng.randint(1, 3)
     labels = rng.sample(["A", "B", "C", "X1", "µ", "s_2"], ns)
     envs = rng.sample(["", "cyt", "mem", "nuc"], rng.randint(1, 3))
@@ -233,6 +260,9 @@ def gen_model(rng, want_space=None):
             ck = alias(rng, "rdgridspace_from_dict", "cell_env")
             sp[ck] = (rng.randrange(len(envs)) if rng.random() < 0.3 else [rng.randrange(len(envs)) for _ in range(size)])
             container(rng, sp, ck)
+            if isinstance(sp[ck], list) and rng.random() < 0.3:          # the map given as a text file
+                expect["cell_env"] = list(sp[ck])
+                sp[ck] = text_file(rng, files, sp[ck])
         if rng.random() < 0.7:
             sp[alias(rng, "rdgridspace_from_dict", "cell_volume")] = qty(rng, (3, 0, 0)) or 1.0
         if rng.random() < 0.6:
@@ -274,6 +304,9 @@ def gen_model(rng, want_space=None):
     if rng.random() < 0.3:
         system["chemostats"] = [rng.randint(0, 1) for _ in range(ns * size)]
         container(rng, system, "chemostats")
+        if rng.random() < 0.4:                                           # the chemostat map given as a text file
+            expect["chemostats"] = list(system["chemostats"])
+            system["chemostats"] = text_file(rng, files, system["chemostats"])
     maybe_units(rng, system, "rdsystem_from_dict")
     ts = sorted(float(rng.randint(0, 20)) / 4 for _ in range(rng.randint(1, 4)))
     script = {"system": system, "t_sample": ts if rng.random() < 0.6 else {"value": ts, "units": rng.choice(TIME)}}
@@ -291,14 +324,16 @@ def gen_model(rng, want_space=None):
     if rng.random() < 0.5:
         script[alias(rng, "rdscript_from_dict", "init_state_processing")] = rng.choice(["auto", "none", "Poisson", "redist"])
     maybe_units(rng, script, "rdscript_from_dict")
-    return script, {"labels": labels, "envs": envs, "kind": kind, "size": size, "ns": ns,
+    if files:
+        script["_files"] = files
+    return script, {"expect_files": expect, "labels": labels, "envs": envs, "kind": kind, "size": size, "ns": ns,
                     "shape": (w, h, d) if kind == "grid" else None}
 
 
 def strip_private(x):
     """the generator's bookkeeping keys removed (the container choices are kept: they are part of the input)"""
     if isinstance(x, dict):
-        return {k: strip_private(v) for k, v in x.items() if not (isinstance(k, str) and k.startswith("_") and k != "_containers")}
+        return {k: strip_private(v) for k, v in x.items() if not (isinstance(k, str) and k.startswith("_") and k not in ("_containers", "_files"))}
     if isinstance(x, list):
         return [strip_private(v) for v in x]
     return x
@@ -308,6 +343,7 @@ def build(script):
     """run the real constructor chain; ('ok', RDScript) or ('error', exception name)"""
     from strengths.rdscript import rdscript_from_dict
     try:
+        write_files(script)
         return "ok", rdscript_from_dict(materialize(script))
     except Exception as ex:  # noqa
         return "error", type(ex).__name__
@@ -569,11 +605,21 @@ def inject(rng, script, info, cls):
         n = info["size"] + rng.choice([-1, 1, 2]) if info["size"] > 1 else info["size"] + rng.choice([1, 2])
         sp[k] = [0] * n
         container(rng, sp, k)
+        asfile = ""
+        if n > info["size"] and rng.random() < 0.5:       # too many entries, in a text file with nothing after the last one
+            vals = [rng.randint(0, 1) if len(info["envs"]) > 1 else 0 for _ in range(n)]
+            files_ = script.setdefault("_files", {})
+            path_ = text_file(rng, files_, vals, end=rng.choice(["", "", "\n", " "]))
+            sp[k] = path_
+            w, h, d = info["shape"]
+            return "space.cell_env(text file)", {"op": "validate", "kind": "grid_ctor", "w": w, "h": h, "d": d, "env": {"arr": vals}}, \
+                "cell_env text file %r with %d entries for %d cells" % (files_[path_], n, info["size"])
         w, h, d = info["shape"]
         return "space.cell_env", {"op": "validate", "kind": "grid_ctor", "w": w, "h": h, "d": d, "env": {"arr": sp[k]}}, "cell_env of length %d for %d cells" % (n, info["size"])
     if cls in ("env-beyond-list", "env-beyond-list-explicit-state"):
         nenv = len(info["envs"])
         bad = nenv + rng.choice([0, 0, 1, 5])
+        asfile = False
         if info["kind"] == "grid":
             k = find(sp, "rdgridspace_from_dict", "cell_env") or "cell_env"
             if rng.random() < 0.3:
@@ -589,6 +635,14 @@ def inject(rng, script, info, cls):
             k = find(nd, "rdgraphspacenode_from_dict", "environment") or "environment"
             nd[k] = bad
             ce = [n_.get(find(n_, "rdgraphspacenode_from_dict", "environment") or "environment", 0) for n_ in sp["nodes"]]
+        if info["kind"] == "grid" and rng.random() < 0.35:
+            # the map as a text file whose LAST entry is the bad one, two digits, nothing after it
+            ce = [rng.randrange(nenv) for _ in range(info["size"])]
+            ce[-1] = int("%d%d" % (rng.randint(1, max(1, nenv - 1)), rng.randint(0, 9)))
+            files_ = script.setdefault("_files", {})
+            sp[k] = text_file(rng, files_, ce, end=rng.choice(["", "", "\n"]))
+            bad = ce[-1]
+            asfile = True
         if cls == "env-beyond-list":
             system.pop("state", None)
             if rng.random() < 0.5:
@@ -598,7 +652,8 @@ def inject(rng, script, info, cls):
             system["chemostats"] = [0] * (info["ns"] * info["size"])
         op = {"op": "validate", "kind": "env_map", "nspecies": info["ns"], "nenv": nenv, "cell_env": ce,
               "state_given": "state" in system, "chem_given": "chemostats" in system}
-        return "space.cell_env", op, "environment index %d with %d environments" % (bad, nenv)
+        return "space.cell_env" + ("(text file)" if asfile else ""), op, "environment index %d with %d environments" % (bad, nenv) + (
+            " (last entry of the text file %r)" % script["_files"][sp[k]] if asfile else "")
     if cls == "boundary":
         if info["kind"] != "grid":
             return None
@@ -944,7 +999,7 @@ def run(ctx):
     import strengths  # noqa
 
     # ---------------------------------------------------------------- 1. faulted models
-    n = ctx.n(1300, 25000)
+    n = ctx.n(1100, 25000)
     ops, meta = [], []
     base_rejected = 0
     for i in range(n):
@@ -960,6 +1015,15 @@ def run(ctx):
             ctx.disagree("validate:valid-model", {"kind": "valid-model", "script": strip_private(script)}, "raised " + obj, {"ok": None})
             continue
         ctx.count("baseline_accepted")
+        for what_, want_, got_ in (("cell_env", info["expect_files"].get("cell_env"), lambda: [int(v) for v in obj.system.space.cell_env]),
+                                   ("chemostats", info["expect_files"].get("chemostats"), lambda: [int(v) for v in obj.system.chemostats])):
+            if want_ is not None:
+                ctx.count("valid_text_file_" + what_)
+                g_ = got_()
+                if g_ != want_:
+                    report(ctx, "text-file:%s" % what_, "the %s text file %r was loaded as %r instead of %r" % (
+                        what_, [c for p_, c in script["_files"].items()], g_, want_),
+                        {"kind": "valid-file", "what": what_, "want": want_, "script": strip_private(script)}, impl=g_, expected=want_)
         faulted = copy.deepcopy(script)
         res = inject(rng, faulted, info, cls)
         if res is None:
@@ -1000,6 +1064,9 @@ def run(ctx):
                      "the engine but refused by the Python setter; the documented system key 'chstt_map' is refused (the code's key is 'chemostats')")
     # ---------------------------------------------------------------- 2. setters called directly with invalid values
     direct_setters(ctx)
+
+    # ---------------------------------------------------------------- 2a. refused writes leave the object untouched
+    refused_writes(ctx)
 
     # ---------------------------------------------------------------- 2b. engine options through LibRDEngine.setup
     engine_options(ctx)
@@ -1154,6 +1221,200 @@ def engine_options(ctx):
             ctx.disagree("validate:engine_option", case, [st, exc], r)
 
 
+# ---------------------------------------------------------------------------------------------
+# refused writes: a setter that raises must leave the object exactly as it was; then a valid write must work
+# ---------------------------------------------------------------------------------------------
+def arr_snap(a):
+    import numpy as np
+    a = np.asarray(a)
+    return [str(a.dtype), list(a.shape), a.tobytes().hex()]
+
+
+def uval_snap(x):
+    return None if x is None else [repr(float(x.value)), str(x.units), [x.units.sys.space, x.units.sys.time, x.units.sys.quantity]]
+
+
+def us_snap(u):
+    return [u.space, u.time, u.quantity]
+
+
+def snapshot(script):
+    """every getter the property talks about, arrays bit for bit"""
+    from strengths.rdspace import RDGridSpace
+    sysm = script.system
+    net, sp = sysm.network, sysm.space
+    out = {
+        "script": {"policy": script.sampling_policy, "mode": script.init_state_processing, "time_step": uval_snap(script.time_step),
+                   "t_max": uval_snap(script.t_max), "interval": uval_snap(script.sampling_interval), "seed": script.rng_seed,
+                   "t_sample": [arr_snap(script.t_sample.value), str(script.t_sample.units)], "units": us_snap(script.units_system)},
+        "system": {"state": [arr_snap(sysm.state.value), str(sysm.state.units)], "chemostats": arr_snap(sysm.chemostats),
+                   "units": us_snap(sysm.units_system), "space_is": type(sp).__name__, "size": sp.size()},
+        "network": {"environments": list(net.environments), "units": us_snap(net.units_system),
+                    "species": [[x.label, repr(x.D), repr(x.density), repr(x.chstt), us_snap(x.units_system)] for x in net.species],
+                    "reactions": [[r.label, r.to_string(), repr(r.kf), repr(r.kr), us_snap(r.units_system)] for r in net.reactions]},
+    }
+    if isinstance(sp, RDGridSpace):
+        out["space"] = {"whd": [sp.w, sp.h, sp.d], "cell_env": arr_snap(sp.cell_env), "cell_vol": uval_snap(sp.cell_vol),
+                        "bc": sorted(sp.get_boundary_conditions().items()), "units": us_snap(sp.units_system)}
+    return out
+
+
+def fresh_script():
+    from strengths.rdnetwork import RDNetwork, Species, Reaction
+    from strengths.rdspace import RDGridSpace
+    from strengths.rdsystem import RDSystem
+    from strengths.rdscript import RDScript
+    from strengths.units import UnitsSystem
+    net = RDNetwork([Species("A", D=1.5, density={"a": 2.0, "b": "1 µM"}), Species("B", D="2 µm2/s", density=0.5, chstt={"b": True})],
+                    [Reaction("A -> B", kf=1.0, kr={"a": 0.5}, label="r")], environments=["a", "b"],
+                    units_system=UnitsSystem("µm", "s", "molecule"))
+    sp = RDGridSpace(2, 2, 1, cell_env=[0, 1, 1, 0], cell_vol="2 µm3", boundary_conditions={"x": "periodical"})
+    rds = RDSystem(net, sp, state=[1.0, 2.0, 3.0, 4.0, 5.0, 6.0, 7.0, 8.0], chemostats=[0, 1, 0, 0, 1, 0, 0, 0])
+    script = RDScript(rds, [0.0, 0.5, 1.0], time_step=0.25, t_max=2.0, sampling_policy="on_interval", sampling_interval=0.5, rng_seed=7,
+                      init_state_processing="none", units_system=UnitsSystem("µm", "s", "molecule"))
+    return script
+
+
+def refused_write_table():
+    """(name, refused write, valid write of the same kind, check of the valid write); all act on a fresh script `s`"""
+    from strengths.units import UnitValue, UnitArray
+    from strengths.rdspace import RDGridSpace
+    from strengths.rdnetwork import Species
+    T = []
+
+    def add(name, bad, good, ok):
+        T.append((name, bad, good, ok))
+    st = lambda s: s.system.state
+    add("state.value item 1 of another dimension", lambda s: setattr(st(s), "value", [5.0, UnitValue(1, "s"), 7.0, 8.0, 9.0, 1.0, 2.0, 3.0]),
+        lambda s: setattr(st(s), "value", [5.0, UnitValue(1, "molecule"), 7.0, 8.0, 9.0, 1.0, 2.0, 3.0]),
+        lambda s: [float(v) for v in st(s).value] == [5.0, 1.0, 7.0, 8.0, 9.0, 1.0, 2.0, 3.0])
+    add("state.value last item of another dimension", lambda s: setattr(st(s), "value", [5.0, 6.0, 7.0, 8.0, 9.0, 1.0, 2.0, UnitValue(3, "µm")]),
+        lambda s: st(s).set_value([9.0] * 8), lambda s: [float(v) for v in st(s).value] == [9.0] * 8)
+    add("state.value unparsable text at item 2", lambda s: setattr(st(s), "value", [5.0, 6.0, "7 parsec", 8.0, 9.0, 1.0, 2.0, 3.0]),
+        lambda s: setattr(st(s), "value", [5.0, 6.0, "7 molecule", 8.0, 9.0, 1.0, 2.0, 3.0]),
+        lambda s: [float(v) for v in st(s).value] == [5.0, 6.0, 7.0, 8.0, 9.0, 1.0, 2.0, 3.0])
+    add("state.value text without units at item 3", lambda s: setattr(st(s), "value", [5.0, 6.0, 7.0, "8", 9.0, 1.0, 2.0, 3.0]),
+        lambda s: setattr(st(s), "value", [0.0] * 8), lambda s: [float(v) for v in st(s).value] == [0.0] * 8)
+    add("t_sample.value item of another dimension", lambda s: setattr(s.t_sample, "value", [0.0, UnitValue(1, "µm"), 2.0]),
+        lambda s: setattr(s.t_sample, "value", [0.0, UnitValue(1, "min"), 90.0]), lambda s: [float(v) for v in s.t_sample.value] == [0.0, 60.0, 90.0])
+    add("system.state of another dimension", lambda s: setattr(s.system, "state", UnitArray([1.0] * 8, "s")),
+        lambda s: setattr(s.system, "state", UnitArray([2.0] * 8, "molecule")), lambda s: [float(v) for v in st(s).value] == [2.0] * 8)
+    add("system.state not an array", lambda s: setattr(s.system, "state", "abc"),
+        lambda s: setattr(s.system, "state", [3.0] * 8), lambda s: [float(v) for v in st(s).value] == [3.0] * 8)
+    add("system.state list with an item of another dimension", lambda s: setattr(s.system, "state", [1.0, 2.0, UnitValue(1, "s"), 4.0, 5.0, 6.0, 7.0, 8.0]),
+        lambda s: setattr(s.system, "state", [4.0] * 8), lambda s: [float(v) for v in st(s).value] == [4.0] * 8)
+    add("system.chemostats not an array", lambda s: setattr(s.system, "chemostats", "x"),
+        lambda s: setattr(s.system, "chemostats", [1] * 8), lambda s: [int(v) for v in s.system.chemostats] == [1] * 8)
+    add("system.space with an environment beyond the list", lambda s: setattr(s.system, "space", RDGridSpace(3, 2, 1, cell_env=[0, 1, 2, 0, 1, 0])),
+        lambda s: setattr(s.system, "space", RDGridSpace(2, 2, 1, cell_env=[1, 1, 0, 0])), lambda s: [int(v) for v in s.system.space.cell_env] == [1, 1, 0, 0])
+    add("system.space not a space", lambda s: setattr(s.system, "space", "grid"),
+        lambda s: setattr(s.system, "space", RDGridSpace(2, 2, 1, cell_env=0)), lambda s: [int(v) for v in s.system.space.cell_env] == [0, 0, 0, 0])
+    add("system.network not a network", lambda s: setattr(s.system, "network", None), lambda s: None, lambda s: True)
+    add("space.cell_env of another length", lambda s: setattr(s.system.space, "cell_env", [0, 1, 0, 1, 0]),
+        lambda s: setattr(s.system.space, "cell_env", [1, 0, 0, 1]), lambda s: [int(v) for v in s.system.space.cell_env] == [1, 0, 0, 1])
+    add("space.cell_env with a text item", lambda s: setattr(s.system.space, "cell_env", [0, 1, "x", 1]),
+        lambda s: setattr(s.system.space, "cell_env", 1), lambda s: [int(v) for v in s.system.space.cell_env] == [1, 1, 1, 1])
+    add("space.cell_vol of another dimension", lambda s: setattr(s.system.space, "cell_vol", "1 s"),
+        lambda s: setattr(s.system.space, "cell_vol", "3 µm3"), lambda s: float(s.system.space.cell_vol.value) == 3.0)
+    add("set_boundary_conditions unknown value on the second axis", lambda s: s.system.space.set_boundary_conditions({"y": "periodical", "z": "open"}),
+        lambda s: s.system.space.set_boundary_conditions({"y": "periodical"}),
+        lambda s: s.system.space.get_boundary_conditions() == {"x": "reflecting", "y": "periodical", "z": "reflecting"})
+    add("set_boundary_conditions unknown axis after a valid one", lambda s: s.system.space.set_boundary_conditions({"z": "periodical", "t": "periodical"}),
+        lambda s: s.system.space.set_boundary_conditions({}), lambda s: set(s.system.space.get_boundary_conditions().values()) == {"reflecting"})
+    add("script.sampling_policy unknown", lambda s: setattr(s, "sampling_policy", "never"),
+        lambda s: setattr(s, "sampling_policy", "no_sampling"), lambda s: s.sampling_policy == "no_sampling")
+    add("script.init_state_processing unknown", lambda s: setattr(s, "init_state_processing", "round"),
+        lambda s: setattr(s, "init_state_processing", "redist"), lambda s: s.init_state_processing == "redist")
+    add("script.time_step of another dimension", lambda s: setattr(s, "time_step", "1 m"),
+        lambda s: setattr(s, "time_step", "1 ms"), lambda s: str(s.time_step.units) == "ms")
+    add("script.t_max of another dimension", lambda s: setattr(s, "t_max", UnitValue(1, "mol")),
+        lambda s: setattr(s, "t_max", 3.0), lambda s: float(s.t_max.value) == 3.0)
+    add("script.sampling_interval unreadable", lambda s: setattr(s, "sampling_interval", "2 parsec"),
+        lambda s: setattr(s, "sampling_interval", 0.25), lambda s: float(s.sampling_interval.value) == 0.25)
+    add("script.t_sample with an item of another dimension", lambda s: setattr(s, "t_sample", [0.0, "1 m", 2.0]),
+        lambda s: setattr(s, "t_sample", [0.0, "1 s", 2.0]), lambda s: [float(v) for v in s.t_sample.value] == [0.0, 1.0, 2.0])
+    add("script.system not a system", lambda s: setattr(s, "system", 5), lambda s: None, lambda s: True)
+    add("script.rng_seed unreadable", lambda s: setattr(s, "rng_seed", "seven"), lambda s: setattr(s, "rng_seed", 11), lambda s: s.rng_seed == 11)
+    holders = [("script", lambda s: s), ("system", lambda s: s.system), ("network", lambda s: s.system.network), ("space", lambda s: s.system.space),
+               ("species[1]", lambda s: s.system.network.species[1]), ("reactions[0]", lambda s: s.system.network.reactions[0])]
+    for hname, h in holders:
+        for comp, bads, good in (("space", ["parsec", 5, "s"], "nm"), ("time", ["sec", None, "m"], "min"), ("quantity", ["molecules", 2.5, "M"], "mol")):
+            for bad in bads:
+                add("%s.units_system.%s = %r" % (hname, comp, bad), (lambda s, h=h, comp=comp, bad=bad: setattr(h(s).units_system, comp, bad)),
+                    (lambda s, h=h, comp=comp, good=good: setattr(h(s).units_system, comp, good)),
+                    (lambda s, h=h, comp=comp, good=good: getattr(h(s).units_system, comp) == good))
+            add("%s.units_system[%r] = bad" % (hname, comp), (lambda s, h=h, comp=comp, bads=bads: h(s).units_system.__setitem__(comp, bads[0])),
+                (lambda s, h=h, comp=comp, good=good: h(s).units_system.__setitem__(comp, good)),
+                (lambda s, h=h, comp=comp, good=good: h(s).units_system[comp] == good))
+        add("%s.units_system['bogus']" % hname, (lambda s, h=h: h(s).units_system.__setitem__("bogus", "s")), lambda s: None, lambda s: True)
+        add("%s.units_system = text" % hname, (lambda s, h=h: setattr(h(s), "units_system", "SI")), lambda s: None, lambda s: True)
+        add("%s.units_system = dict with a bad symbol" % hname, (lambda s, h=h: setattr(h(s), "units_system", {"space": "m", "time": "sec"})),
+            (lambda s, h=h: setattr(h(s), "units_system", {"space": "m", "time": "h"})), (lambda s, h=h: h(s).units_system.time == "h"))
+    sp1 = lambda s: s.system.network.species[0]
+    add("species.D of another dimension", lambda s: setattr(sp1(s), "D", "1 s"), lambda s: setattr(sp1(s), "D", 4), lambda s: float(sp1(s).D.value) == 4.0)
+    add("species.density dict with an entry of another dimension", lambda s: setattr(sp1(s), "density", {"a": 1, "b": UnitValue(1, "m")}),
+        lambda s: setattr(sp1(s), "density", {"a": 1}), lambda s: float(sp1(s).density["a"].value) == 1.0)
+    add("species.chstt not a flag", lambda s: setattr(sp1(s), "chstt", "yes"), lambda s: setattr(sp1(s), "chstt", 1), lambda s: sp1(s).chstt is True)
+    r0 = lambda s: s.system.network.reactions[0]
+    add("reaction.kf of another order", lambda s: setattr(r0(s), "kf", "1 µm3/s"), lambda s: setattr(r0(s), "kf", 6), lambda s: float(r0(s).kf.value) == 6.0)
+    add("reaction.kr dict with an array", lambda s: setattr(r0(s), "kr", {"a": 1.0, "b": [1, 2]}), lambda s: setattr(r0(s), "kr", {"b": 2}), lambda s: float(r0(s).kr["b"].value) == 2.0)
+    netw = lambda s: s.system.network
+    add("network.environments with the reserved name", lambda s: setattr(netw(s), "environments", ["a", "default"]),
+        lambda s: setattr(netw(s), "environments", ["a", "b", "c"]), lambda s: list(netw(s).environments) == ["a", "b", "c"])
+    add("network.environments empty tuple", lambda s: setattr(netw(s), "environments", ()), lambda s: None, lambda s: True)
+    add("network.species with a non-species", lambda s: setattr(netw(s), "species", [Species("A"), 1]), lambda s: None, lambda s: True)
+    add("network.reactions not an array", lambda s: setattr(netw(s), "reactions", "x"), lambda s: None, lambda s: True)
+    return T
+
+
+def diff_snap(a, b, path=""):
+    if isinstance(a, dict) and isinstance(b, dict):
+        out = []
+        for k in sorted(set(a) | set(b)):
+            out += diff_snap(a.get(k), b.get(k), path + "/" + str(k))
+        return out
+    return [] if a == b else [path]
+
+
+def run_refused_write(i):
+    """returns (name, failures, detail)"""
+    name, bad, good, ok = refused_write_table()[i]
+    s = fresh_script()
+    before = snapshot(s)
+    fails, detail = [], {}
+    try:
+        bad(s)
+        fails.append(("refused-write:accepted", "%s was accepted" % name))
+    except Exception as ex:  # noqa
+        detail["exc"] = type(ex).__name__
+    try:
+        after = snapshot(s)
+        changed = diff_snap(before, after)
+    except Exception as ex:  # noqa
+        changed = ["<the object can no longer be inspected: %s>" % type(ex).__name__]
+    detail["changed"] = changed
+    if changed:
+        fails.append(("refused-write:changed", "%s raised (or not) but changed %s" % (name, changed)))
+    try:
+        good(s)
+        if not ok(s):
+            fails.append(("refused-write:then-valid", "after the refused %s, a valid write of the same kind did not take effect" % name))
+    except Exception as ex:  # noqa
+        fails.append(("refused-write:then-valid", "after the refused %s, a valid write of the same kind raised %s" % (name, type(ex).__name__)))
+    return name, fails, detail
+
+
+def refused_writes(ctx):
+    n = len(refused_write_table())
+    for i in range(n):
+        name, fails, detail = run_refused_write(i)
+        ctx.case(("refused-write", name), nontrivial=True)
+        ctx.count("refused_write")
+        for key, what in fails:
+            report(ctx, key + ":" + name.split(" ")[0], what, {"kind": "refused-write", "index": i, "name": name}, impl=detail,
+                   expected="exception; every getter and both arrays bit for bit as before; the next valid write works")
+
+
 def thunk_of(op):
     """the real-code call a `validate` op of the direct stream stands for"""
     from strengths.rdspace import RDGridSpace
@@ -1287,7 +1548,7 @@ def positional_sweep(ctx):
             for x in range(-2, w + 2):
                 for y in range(-2, h + 2):
                     for z in range(-2, d + 2):
-                        if thorough or rng.random() < 0.35:
+                        if thorough or rng.random() < 0.28:
                             one("grid", shape, labels, sref, (x, y, z), acc)
                         if thorough or rng.random() < 0.25:
                             one("grid", shape, labels, sref, {"obj": [x, y, z]}, acc)
@@ -1379,6 +1640,9 @@ def replay(ctx, rec):
         got = run_index_map(tuple(case["shape"]), case["im"], case["env"])
         inv = spec_index_map_invalid(case["im"], case["env"])
         return not (inv and got == "ok"), {"case": case, "impl": got, "invalid_because": inv}
+    if kind == "refused-write":
+        name, fails, detail = run_refused_write(case["index"])
+        return (not fails), {"case": case, "name": name, "impl": detail, "failures": fails}
     if kind == "engine-option":
         st, exc = engine_setup(case["option"], case["graph"])
         return not (case["invalid"] and st == "ok"), {"case": case, "impl": [st, exc], "expected": "exception" if case["invalid"] else "accepted"}
